@@ -51,7 +51,7 @@ noncomputable def lon0 (d : ℝ) (p : V3 ℝ) : ℝ :=
 /-- outputs when the loop exits in the pass that starts from `lat2` -/
 noncomputable def passOut (d : ℝ) (p : V3 ℝ) (lat2 : ℝ) : List ℝ :=
   [lon0 d p, Num.rad2deg (latStep p.z (r0 p) lat2).1,
-   (r0 p / Num.cos (latStep p.z (r0 p) lat2).1 - (latStep p.z (r0 p) lat2).2) * (Look.A : ℝ)]
+   altOf p.z (r0 p) (latStep p.z (r0 p) lat2).1 * (Look.A : ℝ)]
 /-- exit test of the pass that starts from `lat2` -/
 noncomputable def exitTest (p : V3 ℝ) (lat2 : ℝ) : Bool := Num.lt (Num.abs ((latStep p.z (r0 p) lat2).1 - lat2)) (1e-10 : ℝ)
 
@@ -77,7 +77,7 @@ variable (d px py pz : ℝ)
 
 theorem lonlatalt_method_p1 :
     Gen.K.orbital_Orbital_get_lonlatalt_p1 d px py pz = passOut d ⟨px, py, pz⟩ (lat0 ⟨px, py, pz⟩) := by
-  simp only [Gen.K.orbital_Orbital_get_lonlatalt_p1, passOut, lon0, lat0, r0, latStep, wrapLon, gmst_eq, Gen.K.nth, List.getD_cons_zero, List.getD_cons_succ, e2, Look.F,
+  simp only [Gen.K.orbital_Orbital_get_lonlatalt_p1, passOut, altOf, lon0, lat0, r0, latStep, wrapLon, gmst_eq, Gen.K.nth, List.getD_cons_zero, List.getD_cons_succ, e2, Look.F,
     Look.A] <;> kernel_eq
 
 theorem lonlatalt_method_p1_c1 :
@@ -87,7 +87,7 @@ theorem lonlatalt_method_p1_c1 :
 theorem lonlatalt_method_p2 :
     Gen.K.orbital_Orbital_get_lonlatalt_p2 d px py pz =
       passOut d ⟨px, py, pz⟩ (latStep pz (r0 ⟨px, py, pz⟩) (lat0 ⟨px, py, pz⟩)).1 := by
-  simp only [Gen.K.orbital_Orbital_get_lonlatalt_p2, passOut, lon0, lat0, r0, latStep, wrapLon, gmst_eq, Gen.K.nth, List.getD_cons_zero, List.getD_cons_succ, e2, Look.F,
+  simp only [Gen.K.orbital_Orbital_get_lonlatalt_p2, passOut, altOf, lon0, lat0, r0, latStep, wrapLon, gmst_eq, Gen.K.nth, List.getD_cons_zero, List.getD_cons_succ, e2, Look.F,
     Look.A] <;> kernel_eq
 
 theorem lonlatalt_method_p2_c1 :
@@ -109,7 +109,7 @@ noncomputable def pn (px py pz : ℝ) : V3 ℝ :=
 
 theorem lonlatalt_geoloc_p1 :
     Gen.K.geoloc_get_lonlatalt_p1 d px py pz = passOut d (pn px py pz) (lat0 (pn px py pz)) := by
-  simp only [Gen.K.geoloc_get_lonlatalt_p1, pn, passOut, lon0, lat0, r0, latStep, wrapLon, gmst_eq, Gen.K.nth, List.getD_cons_zero, List.getD_cons_succ, e2, Look.F,
+  simp only [Gen.K.geoloc_get_lonlatalt_p1, pn, passOut, altOf, lon0, lat0, r0, latStep, wrapLon, gmst_eq, Gen.K.nth, List.getD_cons_zero, List.getD_cons_succ, e2, Look.F,
     Look.A, Gen.geoloc_A, Gen.orbital_A] <;> kernel_eq
 
 theorem lonlatalt_geoloc_p1_c1 :
@@ -119,7 +119,7 @@ theorem lonlatalt_geoloc_p1_c1 :
 theorem lonlatalt_geoloc_p2 :
     Gen.K.geoloc_get_lonlatalt_p2 d px py pz =
       passOut d (pn px py pz) (latStep (pn px py pz).z (r0 (pn px py pz)) (lat0 (pn px py pz))).1 := by
-  simp only [Gen.K.geoloc_get_lonlatalt_p2, pn, passOut, lon0, lat0, r0, latStep, wrapLon, gmst_eq, Gen.K.nth, List.getD_cons_zero, List.getD_cons_succ, e2, Look.F,
+  simp only [Gen.K.geoloc_get_lonlatalt_p2, pn, passOut, altOf, lon0, lat0, r0, latStep, wrapLon, gmst_eq, Gen.K.nth, List.getD_cons_zero, List.getD_cons_succ, e2, Look.F,
     Look.A, Gen.geoloc_A, Gen.orbital_A] <;> kernel_eq
 
 theorem lonlatalt_geoloc_p2_c2 :
